@@ -11,6 +11,8 @@ WT=/tmp/mrepo-$$
 git -C /repo worktree add -q --detach $WT HEAD || exit 2
 trap 'git -C /repo worktree remove --force $WT >/dev/null 2>&1; rm -rf $WT' EXIT
 git -C $WT apply $P || { echo "PATCH DOES NOT APPLY: $P"; exit 2; }
+# hook files a builder has added in this worktree but the integrator has not yet committed to /repo
+for f in $HERE/hooks/verif_export_*.go.txt; do b=$(basename $f .txt); [ -f $WT/$b ] || cp $f $WT/$b; done
 cd $HERE
 for p in $PROPS; do
   VERIF_REPO=$WT ./check $p $TIER 2>&1 | grep -v '^KNOWN-FINDING' | tail -n 3 | cut -c1-260 | sed "s|^|[$S/$p] |"
